@@ -108,6 +108,26 @@ def run(pid, tier):
         o.finding(kind='btpe', op=ev.get('op'), case=ev.get('case'), k=ev.get('k'), y=ev.get('y'), res=str(ev.get('res'))[:80], show=ev.get('show'), event=ev,
                   signature='btpe:%s:%s:%s' % (ev.get('op'), ev.get('case'), ev.get('k')))
     o.samples.append({'kind': 'BTPE region 2: measured acceptance prefix', 'event': json.loads(blines[0])})
+    # H2PE (Hypergeometric, mode >= 10 above the lower end), pointwise: region-1 acceptance prefix = exact pmf ratio
+    h2 = wd / 'h2pe.ndjson'
+    r8 = tlc('MCH2pe', 'MCH2pe.cfg', pid, 'h2pe_cases', workers=1, timeout=1200, heap='2g',
+             pipe_to=[str(RDV), 'btpe-drive', '--out', str(h2)])
+    require_ok(r8, 'MCH2pe')
+    s8 = json.loads(r8.consumer_out.strip().splitlines()[-1])
+    if s8['events'] < 80:
+        raise ToolError('btpe-drive (H2PE): too few events: %s' % s8)
+    r9 = tlc('TraceBtpe', 'TraceBtpe.cfg', pid, 'h2pe_trace', trace_mode=True, env={'TRACE': h2}, timeout=1200, heap='4g')
+    require_ok(r9, 'TraceBtpe (H2PE)')
+    if r9.rejected or r9.violated:
+        raise ToolError('h2pe trace not consumed: %s' % (r9.rejected or r9.violated))
+    o.add_tlc(r9, 'TraceBtpe: %d measured H2PE acceptance prefixes at the anchors of H2peTable' % s8['events'])
+    hlines = h2.read_text().splitlines()
+    o.traces += len(hlines)
+    o.extra['h2pe_drive'] = s8
+    for (ln, ev) in parse_bad(r9.out):
+        o.finding(kind='h2pe', op=ev.get('op'), N=ev.get('N'), K=ev.get('K'), n=ev.get('n'), k=ev.get('k'), out=ev.get('out'), res=str(ev.get('res'))[:80], show=ev.get('show'), event=ev,
+                  signature='h2pe:%s:%s:%s:%s' % (ev.get('N'), ev.get('K'), ev.get('n'), ev.get('k')))
+    o.samples.append({'kind': 'H2PE region 1: measured acceptance prefix', 'event': json.loads(hlines[0])})
     o.samples.append({'kind': 'Knuth method: exact P(X = 0) of Poisson<f64>', 'event': {k: v for k, v in json.loads(klines[-5]).items() if k != 'probes'}})
     o.samples.append({'kind': 'exact law of a two-word rejection sampler (f32) over 2^48 tickets', 'event': {k: v for k, v in json.loads(rlines[0]).items() if k != 'probes'}})
     o.samples.append({'kind': 'ticket histogram (real sampler -> TraceDiscrete)', 'event': next(e for e in evs if e['op'] == 'hist' and e['kind'] == 'hin' and e['par'][0] >= 8)})
@@ -118,7 +138,9 @@ def run(pid, tier):
         'Poisson with lambda < 12 (Knuth) and Binomial\'s Poisson limit: P(X = 0) = exp(-lambda) exactly (the one-word returns are a prefix of the word range; bisection with witnesses, f64) and P(X = 0), P(X = 1) over the 2^48 tickets in f32; the rest of those laws is not decided; '
         'BTPE is decided POINTWISE in its two main regions: at the anchors of spec/BtpeTable.tla (6 parameter points incl. a flipped one and three with the squeeze / Stirling path) the proposal of a region-2 first word is the table\'s y and '
         'the accepting second words are a prefix of relative length (f(y)/f(m) - 1 + |x - x_m|/p1)/c with f the binomial pmf itself (2^-28), and the triangle map of region 1 is exact (2^-44); the exponential tails (regions 3, 4: about 5% of the proposals) and everything between anchors are NOT decided',
-        'Poisson PD (lambda >= 12), H2PE and the f64 instantiations of Zipf/Zeta are floating-point rejection kernels whose laws are NOT decided',
+        'H2PE is decided POINTWISE in its central region: at the anchors of spec/H2peTable.tla (8 parameter points incl. all reductions K <-> N-K, n <-> N-n and both evaluation paths) the value returned for a region-1 first word is the table\'s and '
+        'the accepting second words are a prefix of relative length f(y)/f(m) with f the hypergeometric pmf itself (2^-22); the exponential tails and everything between anchors are NOT decided',
+        'Poisson PD (lambda >= 12) and the f64 instantiations of Zipf/Zeta are floating-point rejection kernels whose laws are NOT decided',
         'Zipf/Zeta: the documented pmf values are mpmath constants of spec/RejectionTable.tla; the law formula A_k / A assumes two words per iteration and an acceptance region that is a prefix of the acceptance lattice, '
         'both checked (other = 0; probes) - and is itself checked by ticket enumeration on a toy instance (RejToy.tla, with a deliberately wrong variant that must fail)',
         'half a ticket (>= 2^-31) is eleven orders of magnitude above the rounding error of the code\'s recurrences',
